@@ -177,6 +177,31 @@ def gen_dataset(prop: str, idx: int) -> dict:
                 faults["dangling_parent"] += 1
             traces.append({"id": tid, "wf": src["wf"], "kind": "broken",
                            "spans": spans})
+    # ---- time buffer: traces wholly inside the buffer zones ------------
+    time_buffer = rng.choice([0, 0, 1, 2]) if prop == "C15" else rng.choice(
+        [0, 0, 0, 1])
+    faults["trace_in_buffer_zone"] = 0
+    if time_buffer:
+        oks = [t for t in traces if t["kind"] == "ok"]
+        for sign in (-1, 1):
+            src = rng.choice(oks)
+            tid = f"tr{tcount:03d}"
+            tcount += 1
+            shift = sign * (time_buffer * 60 + 30) * 10**9 + (
+                60 * 10**9 if sign > 0 else 0) - (
+                src["spans"][0]["start_time_unix_nano"] - T0)
+            spans = copy.deepcopy(src["spans"])
+            for s_ in spans:
+                s_["trace_id"] = tid
+                s_["span_id"] = s_["span_id"].replace(src["id"], tid)
+                if "parent_span_id" in s_:
+                    s_["parent_span_id"] = s_["parent_span_id"].replace(
+                        src["id"], tid)
+                s_["start_time_unix_nano"] += shift
+                s_["end_time_unix_nano"] += shift
+            traces.append({"id": tid, "wf": src["wf"], "kind": "outside",
+                           "spans": spans})
+            faults["trace_in_buffer_zone"] += 1
     mislabel = {}
     if n_wf > 1 and rng.random() < 0.3:
         t = rng.choice([t for t in traces if t["kind"] == "ok"])
@@ -269,7 +294,7 @@ def gen_dataset(prop: str, idx: int) -> dict:
     ds = {
         "id": f"{prop}:{idx}", "files": files, "sequencer": seq,
         "mapping": mapping, "batch_size": rng.choice([1, 2, 3, 5, 1000]),
-        "time_buffer": 0,
+        "time_buffer": time_buffer,
         "workflows": wf_names,
         "traces": {t["id"]: {"wf": t["wf"], "kind": t["kind"],
                              "shape": _shape(t["spans"])} for t in traces},
